@@ -17,7 +17,9 @@ FPolSources == <<
               FP("policy1", "forbid", FAny, <<"eq", TEdit>>, FAny, <<<<"when", B_("less", G_(Pv, "n"), LitL(5))>>>>)>>],
   [shape |-> "map", good |-> TRUE,
    pols |-> <<FP("a", "permit", FAny, FAny, FAny, <<<<"when", B_("eq", G_(Pv, "n"), LitL(1))>>>>),
-              FP("b", "forbid", FAny, FAny, FAny, <<<<"when", B_("less", G_(G_(Pv, "mgr"), "n"), LitL(0))>>>>)>>],
+              FP("b", "forbid", FAny, FAny, FAny, <<<<"when", B_("less", G_(G_(Pv, "mgr"), "n"), LitL(0))>>>>),
+              \* decided by the action hierarchy, which only the schema supplies (schema-directed entity loading)
+              FP("c", "permit", <<"eq", TU2>>, <<"in", TAll>>, FAny, <<>>)>>],
   [shape |-> "json", good |-> TRUE,
    pols |-> <<FP("j", "permit", <<"is", "User">>, <<"eq", TView>>, FAny, <<<<"unless", G_(Cv, "flag")>>>>)>>],
   [shape |-> "links", good |-> TRUE,
